@@ -4,6 +4,7 @@ import Driver.Vdb
 import Driver.Ledger
 import Driver.Pool
 import Driver.Rewards
+import Driver.Consensus
 /-
 One line per handler object. The first handler that understands a line answers it.
 -/
@@ -16,7 +17,12 @@ def registry : List Obj := [
   ledgerObj,
   pureObj purePool,
   pureObj pureRewards,
-  mkObj (⟨[], none⟩ : ZV.Pool.PState) poolStep
+  mkObj (⟨[], none⟩ : ZV.Pool.PState) poolStep,
+  pureObj pureElection,
+  pureObj pureTicker,
+  pureObj pureBeforeTime,
+  pureObj pureMverify,
+  pureObj pureAddMomentum
 ]
 
 end ZV.Driver
